@@ -86,6 +86,10 @@ func (g *genState) stages(depth int, path []int, sub bool) [][]*GNode {
 					t.Calls = append(t.Calls, &GCall{UID: g.uid, Natives: r.Range(1, 3), Fails: r.Chance(1, 12),
 						DelayUs: r.Intn(300), Chunks: r.Range(1, 3)})
 				}
+				if g.store && r.Chance(1, 3) {
+					// a tool call asks for an interrupt: the ToolsNode is executed again as a whole
+					t.Calls[r.Intn(len(t.Calls))].Intr = 1
+				}
 				n.Stages = [][]*GNode{{a}, {t}, {b}}
 			case x < 28 && depth < g.maxDep:
 				n.Kind = "sub"
